@@ -144,6 +144,54 @@ pub fn build_vt<M: Manager>(m: &M, t: &[V], vals: usize, level: u32, child_vals:
     <M::Rules as DiagramRules<_, _, _>>::reduce(m, level, children).then_insert(m, level)
 }
 
+macro_rules! export_impl {
+    () => {
+        fn export(mref: &MRef<Self>, live: &[&Self::F]) {
+            let mut sink: Vec<u8> = Vec::new();
+            mref.with_manager_shared(|m| {
+                let _ = oxidd_dump::dddmp::ExportSettings::default().ascii().export(&mut sink, m, live.iter().copied());
+            });
+        }
+    };
+}
+
+fn bool_val(op: usize, s: &[V]) -> V {
+    let b = |x: V| x != 0;
+    (match op {
+        0 => b(s[0]) && b(s[1]),
+        1 => b(s[0]) ^ b(s[1]),
+        2 => !b(s[0]) || b(s[1]),
+        3 => {
+            if b(s[0]) {
+                b(s[1])
+            } else {
+                b(s[2])
+            }
+        }
+        4 => !b(s[0]),
+        _ => unreachable!(),
+    }) as V
+}
+
+const BOOL_OPS: &[OpDesc] = &[
+    OpDesc { name: "A:=A&B", dst: 0, srcs: &[0, 1] },
+    OpDesc { name: "B:=A^C", dst: 1, srcs: &[0, 2] },
+    OpDesc { name: "C:=A->B", dst: 2, srcs: &[0, 1] },
+    OpDesc { name: "A:=ite(C,A,B)", dst: 0, srcs: &[2, 0, 1] },
+    OpDesc { name: "A:=!A", dst: 0, srcs: &[0] },
+];
+
+fn bool_apply<F: BooleanFunction>(op: usize, s: &[&F]) -> AllocResult<F> {
+    match op {
+        0 => s[0].and(s[1]),
+        1 => s[0].xor(s[1]),
+        2 => s[0].imp(s[1]),
+        3 => s[0].ite(s[1], s[2]),
+        4 => s[0].not(),
+        _ => unreachable!(),
+    }
+}
+
 // ---------------------------------------------------------------------------
 
 pub struct OpDesc {
@@ -187,44 +235,11 @@ pub trait HKind: 'static {
     }
     fn set_order(mref: &MRef<Self>, order: &[u32]);
     fn probe_table(i: usize, n: u32) -> VT;
+    /// DDDMP (ASCII) export of the given handles into a sink; the file content is C15's business,
+    /// here only the effect on the manager (reference counts) matters
+    fn export(mref: &MRef<Self>, live: &[&Self::F]);
 }
 
-fn bool_val(op: usize, s: &[V]) -> V {
-    let b = |x: V| x != 0;
-    (match op {
-        0 => b(s[0]) && b(s[1]),
-        1 => b(s[0]) ^ b(s[1]),
-        2 => !b(s[0]) || b(s[1]),
-        3 => {
-            if b(s[0]) {
-                b(s[1])
-            } else {
-                b(s[2])
-            }
-        }
-        4 => !b(s[0]),
-        _ => unreachable!(),
-    }) as V
-}
-
-const BOOL_OPS: &[OpDesc] = &[
-    OpDesc { name: "A:=A&B", dst: 0, srcs: &[0, 1] },
-    OpDesc { name: "B:=A^C", dst: 1, srcs: &[0, 2] },
-    OpDesc { name: "C:=A->B", dst: 2, srcs: &[0, 1] },
-    OpDesc { name: "A:=ite(C,A,B)", dst: 0, srcs: &[2, 0, 1] },
-    OpDesc { name: "A:=!A", dst: 0, srcs: &[0] },
-];
-
-fn bool_apply<F: BooleanFunction>(op: usize, s: &[&F]) -> AllocResult<F> {
-    match op {
-        0 => s[0].and(s[1]),
-        1 => s[0].xor(s[1]),
-        2 => s[0].imp(s[1]),
-        3 => s[0].ite(s[1], s[2]),
-        4 => s[0].not(),
-        _ => unreachable!(),
-    }
-}
 
 fn bool_probe(i: usize, n: u32) -> VT {
     // functions of the first three variables, many distinct nodes
@@ -298,6 +313,7 @@ macro_rules! bool_kind {
             fn set_order(mref: &MRef<Self>, order: &[u32]) {
                 <$ddk as dd::BoolKind>::set_order(mref, order)
             }
+            export_impl!();
             fn probe_table(i: usize, n: u32) -> VT {
                 if $zbdd {
                     let mut r = tab_to_vt(((i as u64).wrapping_mul(0x9e3779b97f4a7c15) >> 20) & 0xff, 3);
@@ -394,6 +410,7 @@ impl HKind for HMtbdd {
     fn set_order(mref: &MRef<Self>, order: &[u32]) {
         mref.with_manager_exclusive(|m| oxidd_reorder::set_var_order(m, order))
     }
+    export_impl!();
     fn probe_table(i: usize, n: u32) -> VT {
         (0..(1usize << n)).map(|a| ((i >> (3 * (a % 4))) & 7) as i64 + 100 + (a / 4) as i64).collect()
     }
@@ -507,6 +524,7 @@ impl HKind for HTdd {
     fn set_order(mref: &MRef<Self>, order: &[u32]) {
         mref.with_manager_exclusive(|m| oxidd_reorder::set_var_order(m, order))
     }
+    export_impl!();
     fn probe_table(i: usize, n: u32) -> VT {
         let mut x = (i as u64).wrapping_mul(0x9e3779b97f4a7c15) >> 13;
         let mut base = vec![];
@@ -553,7 +571,7 @@ impl Cfg {
     }
 }
 
-pub const NGEN: usize = 8; // generic actions after the kind's ops
+pub const NGEN: usize = 9; // generic actions after the kind's ops
 
 pub fn num_actions<K: HKind>() -> usize {
     K::OPS.len() + NGEN
@@ -573,6 +591,7 @@ pub fn action_name<K: HKind>(a: usize) -> String {
         5 => "set_var_order(reverse)",
         6 => "set_var_order(rotate)",
         7 => "drop(C) on another thread",
+        8 => "dddmp_export(live registers)",
         _ => "?",
     }
     .to_string()
@@ -609,6 +628,7 @@ impl MState {
             4 => self.n < K::N0 + 2 && !(tight && K::ZBDD),
             5 | 6 => !tight,
             7 => self.regs[2].is_some(),
+            8 => self.regs.iter().any(|r| r.is_some()),
             _ => false,
         }
     }
@@ -731,6 +751,10 @@ pub fn istep<K: HKind>(st: &mut IState<K>, ms: &MState, a: usize, gc_ret: &mut O
         7 => {
             let f = st.regs[2].take();
             std::thread::spawn(move || drop(f)).join().unwrap();
+        }
+        8 => {
+            let live: Vec<&K::F> = st.regs.iter().flatten().collect();
+            K::export(&st.mref, &live);
         }
         _ => {}
     }
